@@ -305,7 +305,7 @@ def _dumps(v, proto):
 
 
 def shards(tier):
-    per = 250 if tier == "quick" else 4000
+    per = 250 if tier == "quick" else 15000
     out = [{"kind": "sequences", "n": per, "idx": i} for i in range(16)]
     out += [{"kind": "xproc", "n": 300 if tier == "quick" else 4000, "idx": i} for i in range(4)]
     return out
